@@ -206,17 +206,23 @@ EvalGroup(g, c, outer) ==
 
 (* ---- solution modifiers and aggregates (18.5, 18.2.4, 18.2.5) ------------------------------------- *)
 (* order of sort keys: unbound < blank node < IRI < literal; numerics by value, strings by code point *)
+IsNumericT(x) == ~IsErr(x) /\ x.k \in {"num", "dec"}
+NumN(x) == IF x.k = "num" THEN x.v ELSE x.n
+NumD(x) == IF x.k = "num" THEN 1 ELSE x.d
+NumLessT(a, b) == NumN(a) * NumD(b) < NumN(b) * NumD(a)          \* denominators are positive
+NumEqT(a, b) == NumN(a) * NumD(b) = NumN(b) * NumD(a)
 KindRank(x) == CASE IsErr(x) -> 0 [] x.k = "bnode" -> 1 [] x.k = "iri" -> 2 [] OTHER -> 3
 (* Before(a, b): SPARQL orders a strictly before b.  Partial: incomparable pairs constrain nothing. *)
 Before(c, a, b) ==
   IF KindRank(a) # KindRank(b) THEN KindRank(a) < KindRank(b)
   ELSE IF IsErr(a) THEN FALSE
   ELSE IF a.k = "iri" /\ b.k = "iri" THEN StrOrd(c, a.v) < StrOrd(c, b.v) /\ StrOrd(c, a.v) >= 0
-  ELSE IF a.k = "num" /\ b.k = "num" THEN a.v < b.v
+  ELSE IF IsNumericT(a) /\ IsNumericT(b) THEN NumLessT(a, b)         \* integers and exact decimals [k "dec", n, d] compare by value
   ELSE IF a.k = "str" /\ b.k = "str" THEN StrOrd(c, a.v) < StrOrd(c, b.v) /\ StrOrd(c, a.v) >= 0
   ELSE IF a.k = "bool" /\ b.k = "bool" THEN ~a.v /\ b.v
   ELSE FALSE
 KeyVal(key, mu, c) == EvalExpr(key.e, mu, c)
+SameKey(a, b) == a = b \/ (IsNumericT(a) /\ IsNumericT(b) /\ NumEqT(a, b))      \* 1 and 1.0 are the same sort key: the next key decides
 RECURSIVE RowBefore(_, _, _, _, _)
 (* lexicographic over the key list; DESC flips; stops at the first key that orders the pair *)
 RowBefore(keys, i, m1, m2, c) ==
@@ -225,7 +231,7 @@ RowBefore(keys, i, m1, m2, c) ==
            lt == IF keys[i].desc THEN Before(c, b, a) ELSE Before(c, a, b)
            gt == IF keys[i].desc THEN Before(c, a, b) ELSE Before(c, b, a)
        IN IF lt THEN TRUE ELSE IF gt THEN FALSE
-          ELSE IF a = b THEN RowBefore(keys, i + 1, m1, m2, c)
+          ELSE IF SameKey(a, b) THEN RowBefore(keys, i + 1, m1, m2, c)
           ELSE FALSE      \* incomparable, unequal keys: no constraint from this or later keys
 (* R is a valid ORDER BY arrangement: no later row must precede an earlier one *)
 OrderedOK(R, keys, c) == \A i \in 1..Len(R) : \A j \in (i + 1)..Len(R) : ~RowBefore(keys, 1, R[j], R[i], c)
